@@ -242,6 +242,7 @@ type sval struct {
 	elems int
 	arr   *arrVal // array ('a'), pointer to array ('p'), or slice of an array ('s' with aoff)
 	aoff  int
+	tail  []sval // slice ('s'): the elements appended (by append) to an otherwise unknown prefix
 }
 
 // arrVal is a fixed-size array of abstract integers, shared by pointers to it.
@@ -1200,6 +1201,52 @@ func (se *symEval) call(fi *FuncInfo, c *ast.CallExpr) []sval {
 					return []sval{{kind: 'i', t: acc, typ: rt}}
 				}
 			}
+		}
+	}
+	if name == "builtin.append" && len(c.Args) >= 1 {
+		base := se.eval(fi, c.Args[0])
+		if base.kind == 's' || base.kind == 'n' {
+			out := sval{kind: 's', base: base.base, off: base.off, slen: nil, typ: base.typ}
+			out.tail = append(out.tail, base.tail...)
+			if base.arr != nil {
+				// appending to a slice of a tracked array: keep what it holds as the prefix
+				for k := base.aoff; k < len(base.arr.elems); k++ {
+					out.tail = append(out.tail, base.arr.elems[k])
+				}
+			}
+			okAll := true
+			for i, a := range c.Args[1:] {
+				v := se.eval(fi, a)
+				if c.Ellipsis.IsValid() && i == len(c.Args)-2 {
+					switch {
+					case v.arr != nil:
+						for k := v.aoff; k < len(v.arr.elems); k++ {
+							out.tail = append(out.tail, v.arr.elems[k])
+						}
+					case v.kind == 's' && len(v.tail) > 0 && v.base == "":
+						out.tail = append(out.tail, v.tail...)
+					default:
+						okAll = false
+					}
+					continue
+				}
+				if v.kind != 'i' {
+					okAll = false
+					continue
+				}
+				et := types.Type(types.Typ[types.Uint8])
+				if t := info.TypeOf(c); t != nil {
+					if sl, isSl := t.Underlying().(*types.Slice); isSl {
+						et = sl.Elem()
+					}
+				}
+				out.tail = append(out.tail, se.intVal(v.t, et))
+			}
+			if okAll {
+				return []sval{out}
+			}
+			se.fail(c, "append of elements that are not tracked")
+			return []sval{{kind: 'u'}}
 		}
 	}
 	if name == "builtin.copy" && len(c.Args) == 2 {
